@@ -36,7 +36,9 @@ MERGE_RULE = ("traces of atomic steps through the real NewMergeHandler over 2-4 
 ROUTER_RULE = ("2-4 concurrent sessions on ONE real RouterHandler (buffer 1/2/3/5), 10-32 operations driven one at a time: REQ (1-3 filters on kinds/authors/since/until/limit/#t; re-issued ids replace), "
                "CLOSE (open and non-open ids), EVENT, COUNT, disconnect, stop-reading / resume; an operation is complete when its direct reply (EOSE/OK/COUNT) is read, and after every EVENT each reading "
                "connection is flushed with a private barrier subscription + barrier event travelling FIFO through its queue, so what each connection received for that EVENT is known without "
-               "timeouts; a connection that stopped reading is judged when it resumes; built with -race; non-trivial = every history; distinct = distinct output line")
+               "timeouts; a connection that stopped reading is judged when it resumes; built with -race; stream 2 (CONCURRENT): every connection runs its own script in its own goroutine "
+               "with random yields, all sends stamped with a global logical clock before, all receives after the fact, and the recorded history is judged by the real-time rule of the statement "
+               "(must deliver / must not / may; replies; per-publisher order); non-trivial = every history; distinct = distinct output line")
 
 SQLITE_RULE = ("batch histories through the real insertEvents/queryEvent (verif exports) on a real SQLite database (mattn/go-sqlite3): 3-10 batches of 1-8 events per history from a small universe (3 authors, "
                "all kind classes, new versions at -1/0/+1 s, duplicates, deletion requests by id and address before/after their targets incl. 3-element and 1-element tags, Unicode / NUL / quote content, "
@@ -285,6 +287,8 @@ PROPS = {
         "gen_groups": ["Router", "Matcher"], "harness_prop": "router", "driver_prop": "router", "race": True,
         "monitors": ["delivery", "reply"],
         "n_quick": 1500, "n_thorough": 15000, "thorough_seeds": 3,
+        "extra_streams": [{"harness_prop": "routerconc", "driver_prop": "routerconc", "monitors": ["delivery"], "n_quick": 150, "n_thorough": 1500,
+                           "replay_op": "routerconc"}],
         "rule": ROUTER_RULE,
         "level_text": "Partial by nature (scheduler). On the LTS model of the registry at critical-section granularity (source text of Subscribe/Unsubscribe/UnsubscribeAll/Publish, of safeMap's methods, of "
                       "trySendCtx, of the session loop pinned by router_source_pinned; SendIfMatch's test regenerated), for EVERY state and so every interleaving: a visit appends to the visited "
@@ -293,9 +297,10 @@ PROPS = {
                       "are never removed or reordered (enqueue_eq, enqueue_drop_only_when_full, enqueue_prefix); whether a publisher's step is enabled never depends on a queue (enabled_indep_queues, "
                       "visit_enabled); a publish visits a connection at most once (visit_once); REQ/CLOSE/disconnect take effect at once (subscribe_registers, unsubscribe_removes, "
                       "unsubAll_removes_everything); a publish that runs to completion leaves in every connection's queue exactly the owed deliveries (publish_queues, with reg_keys_nodup). "
-                      "Runtime-validated, not proved: that Go's RWMutex/channel runtime realises only LTS schedules, the real-time must/may rule for overlapping operations, per-publisher order.",
+                      "Runtime-validated, not proved: that Go's RWMutex/channel runtime realises only LTS schedules; the real-time must/may rule for overlapping operations and per-publisher order are "
+                      "judged on recorded concurrent histories by the monitor of Spec/RouterConc.lean (stream 2).",
         "level_note": "Trusted: Lean kernel + standard axioms; go2lean (bodytext pins); harness/driver; Go's sync.RWMutex, channels and race detector.",
-        "assumptions": ["histories are sequentialised by the harness (every operation completes before the next); overlapping operations are exercised only by the barrier traffic and the -race build",
+        "assumptions": ["stream 1 is sequentialised by the harness (every operation completes before the next); overlapping operations are exercised by stream 2 and the -race build",
                         "generated filters always name kinds or authors so that barrier events match no generated subscription"],
     },
     "C08": {
